@@ -40,6 +40,8 @@ type script struct {
 	self byte // '-', 'a', 'n' (settles inside the handler); 'A', 'N': a helper goroutine started by the handler settles, racing the Router's own Ack/Nack
 	// error kinds: 'e' errors.New, 'c' context.Canceled, 'd' context.DeadlineExceeded, 'w' fmt.Errorf("%w") around
 	// DeadlineExceeded, 'x' pkg/errors.Wrap around Canceled, 'u' custom error type, 'j' errors.Join(plain, DeadlineExceeded)
+	// 's'/'S': like 'r', but the outputs are different objects with identical content: 's' empty UUID, no metadata, same
+	// payload; 'S' copies (Message.Copy) of one message with UUID and metadata
 	// 'q'/'Q': like 'r', but every output carries a context that is already cancelled / past its deadline
 	kind   byte   // 'r' returns (nil slice when k = 0), 'z' returns an empty NON-NIL slice, 'e' plain error, 'c' context.Canceled, 'p' panics
 	k      int    // number of outputs (r/e/c)
@@ -71,7 +73,7 @@ func parseScript(s string) (script, error) {
 		if len(f[1]) != 2 || !strings.ContainsRune("venisbcg", rune(sc.pv)) {
 			return sc, fmt.Errorf("bad panic in %q", s)
 		}
-	case 'r', 'e', 'c', 'z', 'd', 'w', 'x', 'u', 'j', 'q', 'Q':
+	case 'r', 'e', 'c', 'z', 'd', 'w', 'x', 'u', 'j', 'q', 'Q', 's', 'S':
 		sc.kind = f[1][0]
 		k, err := strconv.Atoi(f[1][1:])
 		if err != nil || k < 0 || k > 1000 {
@@ -91,7 +93,7 @@ func parseScript(s string) (script, error) {
 			return sc, fmt.Errorf("bad pub in %q", s)
 		}
 		sc.rej = k
-	} else if sc.pub != "ok" && sc.pub != "err" && sc.pub != "panic" {
+	} else if sc.pub != "ok" && sc.pub != "err" && sc.pub != "panic" && sc.pub != "errc" && sc.pub != "errw" && sc.pub != "errd" && sc.pub != "erru" {
 		return sc, fmt.Errorf("bad pub in %q", s)
 	}
 	return sc, nil
@@ -326,9 +328,22 @@ func (s *scenario) handler(msg *message.Message) ([]*message.Message, error) {
 	if st.sc.kind == 'z' {
 		outs = []*message.Message{} // … unless it asks for an empty but non-nil slice
 	}
+	var template *message.Message
 	for i := 0; i < st.sc.k; i++ {
 		o := s.newOut(st, i)
 		switch st.sc.kind {
+		case 's': // a fan-out of identical commands: UUID is optional, the content is equal, the objects are not
+			s.byOut.Delete(o)
+			o = message.NewMessage("", []byte("tick"))
+			s.byOut.Store(o, outRef{st, i})
+		case 'S':
+			s.byOut.Delete(o)
+			if template == nil {
+				template = message.NewMessage(fmt.Sprintf("m%d-same", st.idx), []byte("copied"))
+				template.Metadata.Set("k", "v")
+			}
+			o = template.Copy()
+			s.byOut.Store(o, outRef{st, i})
 		case 'q': // the handler worked under a context it cancels when it is done (ctx, cancel := …; defer cancel())
 			ctx, cancel := context.WithCancel(context.Background())
 			cancel()
@@ -509,6 +524,14 @@ func (p *scriptPub) Publish(topic string, msgs ...*message.Message) error {
 	switch st.sc.pub {
 	case "err":
 		return errPublish
+	case "errc": // what a context-aware publisher returns when the context of the message it is given is finished
+		return context.Canceled
+	case "errw":
+		return fmt.Errorf("cannot publish %d messages to %q: %w", len(msgs), topic, context.Canceled)
+	case "errd":
+		return pkgerrors.Wrap(context.DeadlineExceeded, "publish timed out")
+	case "erru":
+		return &panicErr{code: 5}
 	case "panic":
 		panic("publisher panic")
 	}
@@ -1177,7 +1200,7 @@ func resultsFor(kind string) []string {
 		// a NoPublishHandlerFunc cannot return messages; outputs come from output-adding middleware only
 		return []string{"r0", "e0", "c0", "d0", "w0", "x0", "u0", "j0", "pv", "pe", "pn", "pi", "ps", "pb", "pc", "pg"}
 	}
-	return []string{"r0", "z0", "r1", "r3", "q1", "Q2", "e0", "e1", "e3", "c0", "c2", "d0", "w1", "x0", "u2", "j0", "pv", "pe", "pn", "pi", "ps", "pb", "pc", "pg"}
+	return []string{"r0", "z0", "r1", "r3", "s3", "S2", "q1", "Q2", "e0", "e1", "e3", "c0", "c2", "d0", "w1", "x0", "u2", "j0", "pv", "pe", "pn", "pi", "ps", "pb", "pc", "pg"}
 }
 
 func pubsFor(kind, res string) []string {
@@ -1186,7 +1209,7 @@ func pubsFor(kind, res string) []string {
 	}
 	if kind == "pub" {
 		// rej<k>: the verdict depends on the messages of the call – every handler output position and a middleware output
-		return []string{"ok", "err", "panic", "rej0", "rej1", "rej2", "rej100", "rej101"}
+		return []string{"ok", "err", "errc", "errw", "errd", "erru", "panic", "rej0", "rej1", "rej2", "rej100", "rej101"}
 	}
 	return []string{"ok"} // the script's publisher behaviour is never consulted
 }
@@ -1270,12 +1293,12 @@ func randomScript(rng *wh.Rng, kind string) script {
 		case 2:
 			res = rng.Pick("r0", "z0")
 		default:
-			res = rng.Pick("r", "r", "r", "q", "Q") + wh.Itoa(1+rng.Intn(5))
+			res = rng.Pick("r", "r", "r", "q", "Q", "s", "S") + wh.Itoa(1+rng.Intn(5))
 		}
 	}
 	pb := "ok"
 	if kind == "pub" || kind == "pubdeco" {
-		pb = rng.Pick("ok", "ok", "ok", "err", "panic", "rej"+wh.Itoa(rng.Intn(5)), "rej"+wh.Itoa(100+rng.Intn(2)))
+		pb = rng.Pick("ok", "ok", "ok", "err", "errc", "errw", "errd", "erru", "panic", "rej"+wh.Itoa(rng.Intn(5)), "rej"+wh.Itoa(100+rng.Intn(2)))
 	}
 	return mustScript(self + "." + res + "." + pb)
 }
